@@ -362,6 +362,68 @@ func wrapBinds(binds []bindT, body string, panicky bool) string {
 	return body
 }
 
+// desugarSwitch rewrites `switch [tag] { case a, b: ...; default: ... }` (no init, no
+// fallthrough, no break, side-effect-free tag) into the if/else-if chain Go defines it to be:
+// cases are tried in source order, `default` is taken when none matches wherever it stands.
+func desugarSwitch(s *ast.SwitchStmt) ast.Stmt {
+	if s.Init != nil {
+		bail("switch with init statement")
+	}
+	if s.Tag != nil {
+		switch s.Tag.(type) {
+		case *ast.Ident, *ast.SelectorExpr, *ast.BasicLit:
+		default:
+			bail("switch on a compound expression")
+		}
+	}
+	var deflt []ast.Stmt
+	hasDefault := false
+	type arm struct {
+		cond ast.Expr
+		body []ast.Stmt
+	}
+	var arms []arm
+	for _, c := range s.Body.List {
+		cc := c.(*ast.CaseClause)
+		for _, st := range cc.Body {
+			ast.Inspect(st, func(n ast.Node) bool {
+				if b, ok := n.(*ast.BranchStmt); ok && (b.Tok == token.FALLTHROUGH || b.Tok == token.BREAK) {
+					bail("switch with %s", b.Tok)
+				}
+				return true
+			})
+		}
+		if cc.List == nil {
+			deflt, hasDefault = cc.Body, true
+			continue
+		}
+		var cond ast.Expr
+		for _, e := range cc.List {
+			var one ast.Expr = e
+			if s.Tag != nil {
+				one = &ast.BinaryExpr{X: s.Tag, Op: token.EQL, Y: e}
+			}
+			if cond == nil {
+				cond = one
+			} else {
+				cond = &ast.BinaryExpr{X: cond, Op: token.LOR, Y: one}
+			}
+		}
+		arms = append(arms, arm{cond, cc.Body})
+	}
+	var tail ast.Stmt
+	if hasDefault {
+		tail = &ast.BlockStmt{List: deflt}
+	}
+	for i := len(arms) - 1; i >= 0; i-- {
+		tail = &ast.IfStmt{Cond: arms[i].cond, Body: &ast.BlockStmt{List: arms[i].body}, Else: tail}
+	}
+	if tail == nil {
+		return &ast.BlockStmt{}
+	}
+	return tail
+}
+
 // assigned collects the variables assigned (not declared) in a block.
 func assignedVars(stmts []ast.Stmt, acc map[string]bool) {
 	for _, s := range stmts {
@@ -390,6 +452,8 @@ func assignedVars(stmts []ast.Stmt, acc map[string]bool) {
 			}
 		case *ast.BlockStmt:
 			assignedVars(s.List, acc)
+		case *ast.SwitchStmt:
+			assignedVars([]ast.Stmt{desugarSwitch(s)}, acc)
 		}
 	}
 }
@@ -419,6 +483,8 @@ func terminates(stmts []ast.Stmt) bool {
 		}
 	case *ast.BlockStmt:
 		return terminates(s.List)
+	case *ast.SwitchStmt:
+		return terminates([]ast.Stmt{desugarSwitch(s)})
 	}
 	return false
 }
@@ -613,6 +679,8 @@ func (f *fnTr) block(stmts []ast.Stmt, panicky bool, cont func() string) string 
 		bail("expression statement")
 	case *ast.BlockStmt:
 		return f.block(append(append([]ast.Stmt{}, s.List...), stmts[1:]...), panicky, cont)
+	case *ast.SwitchStmt:
+		return f.block(append([]ast.Stmt{desugarSwitch(s)}, stmts[1:]...), panicky, cont)
 	case *ast.IfStmt:
 		if s.Init != nil {
 			bail("if with init statement")
